@@ -97,6 +97,29 @@ def run_case(args):
                     fails.append(("transform_calls_%s" % form, calls))
                 if any(f.attributes.get("tagged") != ["yes"] for f in out):
                     fails.append(("transform_result_%s" % form, None))
+            # (b2) a transform that RAISES on the second feature: the error reaches the caller at that item (a skipped feature is one for which the
+            #      transform returned a false value - and only those), everything before it was yielded
+            if len(want) >= 2:
+                class Boom(Exception):
+                    pass
+
+                def tr2(f, bad=want[1]):
+                    if S.fid(f) == bad:
+                        raise Boom("transform failed on feature %d" % bad)
+                    return f
+                seen, err = [], None
+                try:
+                    with S.quiet():
+                        for f in gffutils.DataIterator(make_input(form, path, text, cl, store), checklines=cl, transform=tr2, **kw):
+                            seen.append(S.fid(f))
+                except Boom:
+                    err = "boom"
+                except Exception as e:  # noqa
+                    err = type(e).__name__
+                if err != "boom":
+                    fails.append(("transform_error_swallowed_%s" % form, [err, seen]))
+                elif seen != want[:1]:
+                    fails.append(("transform_error_position_%s" % form, seen))
             # (c) create_db from this form
             if want:
                 with S.quiet(), warnings.catch_warnings():
@@ -169,9 +192,9 @@ def run(ctx):
 def replay(ctx, rec):
     c = rec["case"]
     if "kinds" not in c:
-        return True
-    cases = S.get_cases(ctx, max(3, len(c["kinds"])), "recompute expectation")
+        raise core.CannotReplay("no executable case in this replay file")
+    cases = S.get_cases(ctx, max(3, len(c["kinds"]), c["cl"] - 1), "recompute expectation")
     for j in cases or []:
         if j["kinds"] == c["kinds"] and j["cl"] == c["cl"]:
             return bool(run_case((j, ctx.scratch, 0)))
-    return True
+    raise core.CannotReplay("the case could not be reconstructed from the model")
